@@ -275,6 +275,9 @@ func ksort(key string) string {
 
 // Key returns the array key of Go type t.
 func (tm *TypeMap) Key(t types.Type) string {
+	if it, ok := types.Unalias(t).(*types.Interface); ok && it.NumMethods() == 0 {
+		return SIface + "#any"
+	}
 	return tm.Sort(t) + "#" + sanitize(types.TypeString(types.Unalias(t), nil))
 }
 func (tm *TypeMap) MapHas(k, v string) string        { return "MH." + sortName(k) + "." + sortName(v) }
